@@ -673,7 +673,7 @@ func history(lic license.License, mqttMode bool, nClients, steps int, script []s
 	sort.Strings(dump)
 	// what the message store holds at the end: channel, payload and ttl of every stored message
 	var stored []string
-	for _, lvl := range []string{"a", "b", "x", "y", "presence"} {
+	for _, lvl := range []string{"a", "b", "x", "y", "z", "presence"} {
 		f, _ := svc.VerifStorage().Query(message.Ssid{lic.Contract(), hash.OfString(lvl)}, time.Unix(0, 0), time.Unix(0, 0), nil, 100000)
 		for _, m := range f {
 			stored = append(stored, vlib.Pair(vlib.Pair(vlib.Bytes(m.Channel), vlib.Bytes(m.Payload)), vlib.N(uint64(m.TTL))))
